@@ -1987,14 +1987,16 @@ def relative_position_angle(alpha1, delta1, alpha2, delta2):
         and isinstance(delta2, Angle)
     ):
         raise TypeError("Invalid input types")
-    da = alpha1 - alpha2
-    da = da()
-    # Bring the difference to the +/-180 degrees range (exactly), so that a
-    # small difference across the 0/360 seam keeps its accuracy
+    # Difference in right ascension, in the +/-180 degrees range. Across the
+    # 0/360 seam one operand is shifted by a whole turn first (exactly, as it
+    # is then larger than 180), so that a small difference keeps its accuracy
+    a1 = alpha1()
+    a2 = alpha2()
+    da = a1 - a2
     if da > 180.0:
-        da -= 360.0
+        da = (a1 - 360.0) - a2
     elif da < -180.0:
-        da += 360.0
+        da = a1 - (a2 - 360.0)
     da = radians(da)
     d1 = delta1.rad()
     d2 = delta2.rad()
